@@ -250,3 +250,10 @@ theorem reorder_spec {iddof : List κ} {sets : List Nat} {dofr : List κ} {npv :
 end reorder
 
 end PyYetiVerif.Uset
+
+namespace PyYetiVerif.Uset
+theorem liftE_ok' {β : Type} {x : Except Err β} {v : β} (h : liftE x = .ok v) : x = .ok v := by
+  cases x with
+  | error e => cases h
+  | ok a => simp only [liftE, Except.ok.injEq] at h; rw [h]
+end PyYetiVerif.Uset
